@@ -141,7 +141,8 @@ def chk_x680(tier):
 
 
 def time_strings(tier):
-    base = ['2017080112', '201708011201', '20170801120112']
+    # (the last three have no digit 0 anywhere: what is cleaned up must not depend on there being zeros to drop)
+    base = ['2017080112', '201708011201', '20170801120112', '19991231235959', '199912312359', '2111111111']
     fracs = ['', '.', '.0', '.5', '.50', '.05', '.120', '.102', '.099', '.999', '.000', '.1234', '.100200', ',5',
              '.5000', '.0000', '.1230', '.12300', '.500', '.9990']
     zones = ['Z', '', '+0200', '-0130', '+02']
@@ -176,7 +177,15 @@ def chk_cer(tier):
         try:
             want, off = x680_instant(text, yd)
         except ValueError:
-            continue
+            # a decimal mark with no digit behind it is not X.680, but the library takes it (and the canonical encoders drop
+            # the mark): the instant is that of the text without the mark
+            if kind == 'G' and '.' in text and not text.partition('.')[2].rstrip('Z+-0123456789'[0:1])[:1].isdigit():
+                try:
+                    want, off = x680_instant(text.replace('.', '', 1), yd)
+                except ValueError:
+                    continue
+            else:
+                continue
         for ename, enc in (('CER', ce), ('DER', de)):
             n += 1
             try:
